@@ -109,6 +109,11 @@ class ResponseEncoder:
         if encoding in self.attempted_charsets:
             return False
         self.attempted_charsets.add(encoding)
+        try:
+            # The charset name comes from the client's Accept-Charset.
+            ''.encode(encoding, self.errors)
+        except (LookupError, ValueError):
+            return False
 
         def encoder(body):
             for chunk in body:
